@@ -207,7 +207,8 @@ def compare_export(model_lex: dict, got_lex: dict, v0: str, v: str, out: list, l
 
 
 def _ws(c):
-    return ' '.join(c.split()) if isinstance(c, str) else c
+    from ..canon import xml_ws_norm
+    return xml_ws_norm(c) if isinstance(c, str) else c
 
 
 def _ws_texts(o, inside=False):
